@@ -1,7 +1,9 @@
-from . import checks_tier, checks_tg
+from . import checks_tier, checks_tg, checks_file
 
 CHECKS = {}
 for _p in checks_tier.PROPS:
     CHECKS[_p] = checks_tier.check
 CHECKS["C12"] = checks_tg.check_c12
+CHECKS["C02"] = checks_file.check_c02
+CHECKS["C04"] = checks_file.check_c04
 REPLAYERS = {}
